@@ -39,7 +39,11 @@ CFG = dict(
              "batches 0/1): one response of the exchange lost entirely after the server processed the request - the answer "
              "to GET /refs/, the first JSON answer, the answer of the packfile exchange carrying the j-th commit for every j "
              "(and one past the end) - as a connection abort (panic(http.ErrAbortHandler)) and as an HTTP/2 stream reset "
-             "(TLS test server; fetch.Fetch retries), for fetch (96) and push (48); PERSISTENT FAULTS (16): every packfile answer of upload-pack cut inside its last object / "
+             "(TLS test server; fetch.Fetch retries), for fetch (96) and push (48); SECOND FETCH AFTER THE REMOTE MOVED REFS (40 quick / 60 thorough): the local side already holds tags and "
+             "remote-tracking branches; the remote moved them to commits reachable from no other advertised ref (side "
+             "commit, unrelated root), to a descendant, backwards, or not at all; x '+' on the heads refspec x '+' on the "
+             "tags refspec x global --force (existing-tag updates included) x depth {0,1}: whatever is accepted or "
+             "rejected, every moved ref has its whole history locally; PERSISTENT FAULTS (16): every packfile answer of upload-pack cut inside its last object / "
              "lost by an HTTP/2 reset on EVERY attempt: the fetch must give up with an error after at most 5 upload-pack "
              "exchanges (maxFetchAttempts; the reference server also has an 80-request watchdog) and write no ref; SHALLOW "
              "repositories: push from a local side that lacks the tables of its older commits (last 1/2 tables kept) to a "
